@@ -28,7 +28,7 @@ import re._constants as SC
 
 from .core import AnalysisError
 from .core import model_token
-from .absint import (Interp, Obj, ClassVal, AbsRaise, Unsupported, Native, Closure)
+from .absint import (is_opaque, Interp, Obj, ClassVal, AbsRaise, Unsupported, Native, Closure)
 
 TEXT_MODULES = ("parser", "parser_tools")
 
@@ -1020,6 +1020,62 @@ def explore_physical(ctx):
     except Unsupported as e:
         raise AnalysisError(f"physical-line model leaves the abstract interface: {e}")
     return F
+
+
+def explore_component_lines(ctx):
+    """C06 end to end: properties of every value family added through the API - text, a
+    text list, a number with a long non-ASCII parameter, an address, a binary-free inline
+    value - and the component serialised by Component.to_ical (nothing stubbed): every
+    physical line obeys the fold laws and unfolding gives back the content lines."""
+    model = ctx.model
+    F = Findings()
+    cases = [
+        ("SUMMARY (text)", "summary", "é" * 100, None),
+        ("CATEGORIES (text list)", "categories", ["é" * 30, "€" * 30, "a" * 30, "\U0001F600" * 12], None),
+        ("PRIORITY (number) with a non-ASCII parameter", "priority", 5, {"X-NOTE": "ü" * 80}),
+        ("ATTENDEE (address) with non-ASCII CN", "attendee", "mailto:" + "a" * 50, {"CN": "Jörg " * 15}),
+        ("ATTENDEE (non-ASCII address)", "attendee", "mailto:" + "é" * 80, None),
+        ("X- property (default text) given bytes", "x-note", ("€" * 40).encode("utf-8"), None),
+        ("SEQUENCE (number) with an astral parameter", "sequence", 7, {"X-FACE": "\U0001F600" * 25}),
+    ]
+    for label, name, value, params in cases:
+        it = TextInterp(model)
+        F.n += 1
+        try:
+            ev = it.instantiate(model.cls("cal.Event"), [], {})
+            kw = {"parameters": params} if params else {}
+            it.run(it.getattr(ev, "add"), [name, value], kw)
+            data = it.run(it.getattr(ev, "to_ical"), [], {})
+            if not isinstance(data, bytes) or is_opaque(data):
+                raise Unsupported(f"Component.to_ical returned {type(data).__name__}")
+            lines = it._as_list(it.run(it.getattr(ev, "content_lines"), [], {}))
+            logical = [_s(x) for x in lines if _s(x) != ""]
+        except AbsRaise as e:
+            F.add("emit", f"an Event with {label} cannot be serialised ({e.cls_name})", property=label)
+            continue
+        except Unsupported as e:
+            raise AnalysisError(f"component serialisation leaves the abstract interface on {label}: {e}")
+        phys = data.split(b"\r\n")
+        for ph in phys:
+            if len(ph) > 75:
+                F.add("75 octets", f"an Event with {label} is serialised with a physical line of "
+                      f"{len(ph)} octets", property=label)
+            try:
+                ph.decode("utf-8")
+            except UnicodeDecodeError:
+                F.add("whole characters", f"an Event with {label}: a physical line is not valid UTF-8 on "
+                      f"its own", property=label)
+        try:
+            unfolded = data.replace(b"\r\n ", b"").decode("utf-8").split("\r\n")
+            if [u for u in unfolded if u] != logical:
+                F.add("one space", f"an Event with {label}: removing each CRLF + one space does not give "
+                      f"back the content lines", property=label)
+        except UnicodeDecodeError:
+            pass
+    return F
+
+
+COMPONENT_LAWS = ["75 octets", "whole characters", "one space", "emit"]
 
 
 PHYS_LAWS = ["75 octets", "whole characters", "one space", "CRLF", "unfold", "emit", "reader", "invariance"]
